@@ -1,4 +1,5 @@
 import json
+import gfapy
 from copy import deepcopy
 
 class Cloning:
@@ -21,14 +22,22 @@ class Cloning:
     for k,v in self._data.items():
       if k in self.__class__.REFERENCE_FIELDS:
         data_cpy[k] = self.field_to_s(k)
+      elif isinstance(v, gfapy.FieldArray):
+        data_cpy[k] = gfapy.FieldArray(v.datatype, deepcopy(list(v)))
       elif self._field_datatype(k) == "J":
         data_cpy[k] = json.loads(json.dumps(v))
-      elif isinstance(v, list) or isinstance(v, str):
+      elif isinstance(v, gfapy.OrientedLine):
+        data_cpy[k] = gfapy.OrientedLine(v.line, v.orient)
+      elif isinstance(v, list) or isinstance(v, dict) or isinstance(v, str):
         data_cpy[k] = deepcopy(v)
       else:
         data_cpy[k] = v
     cpy = self.__class__(data_cpy, vlevel = self.vlevel,
                          virtual = self.virtual, version = self.version)
     cpy._datatype = self._datatype.copy()
+    if "_positional_fieldnames" in self.__dict__:
+      # custom records: the positional field names are instance specific
+      cpy.__dict__["_positional_fieldnames"] = \
+          list(self.__dict__["_positional_fieldnames"])
     # cpy._refs and cpy._gfa are not set, so that the cpy is disconnected
     return cpy
